@@ -29,6 +29,9 @@ pub struct C15Case {
     /// None: enumerate; Some: exactly these injections (replay)
     pub faults: Option<Vec<Inject>>,
     pub pair_seeds: Vec<u16>,
+    /// the first root is given twice (every entry below it is then visited twice)
+    #[serde(default)]
+    pub repeat_root: bool,
 }
 
 fn case_strategy() -> BoxedStrategy<C15Case> {
@@ -43,14 +46,20 @@ fn case_strategy() -> BoxedStrategy<C15Case> {
             p.near_dup_pairs = 1;
             p.resplit = 0;
             let op = OptProfile { transform_w: 0.15, cache_w: 0.25, links: false, isolate: false, rf: false, max_roots: roots };
-            (tree_strategy(&p), gopts_strategy(op), prop::bool::weighted(0.3), proptest::collection::vec(0u16..u16::MAX, 6)).prop_map(
-                move |(tree, mut opts, ext4, pair_seeds)| {
+            (tree_strategy(&p), gopts_strategy(op), prop::bool::weighted(0.3), proptest::collection::vec(0u16..u16::MAX, 6), prop::bool::weighted(0.25), prop::bool::weighted(0.25)).prop_map(
+                move |(tree, mut opts, ext4, pair_seeds, skip, repeat_root)| {
                     opts.threads = vec![];
+                    // without the final stage a file is judged by its prefix and suffix alone: a
+                    // failed read of either must still keep it out of every group
+                    opts.skip_content_hash = skip && opts.transform.is_none();
+                    if opts.skip_content_hash && opts.disk == 0 {
+                        opts.disk = 1; // pinned ssd: suffix stage for files above 64 KiB
+                    }
                     if let Some(t) = &mut opts.transform {
                         // keep to well-behaved transforms here
                         t.io = TrIo::Pipe;
                     }
-                    C15Case { tree, roots, opts, ext4, faults: None, pair_seeds }
+                    C15Case { tree, roots, opts, ext4, faults: None, pair_seeds, repeat_root }
                 },
             )
         })
@@ -133,7 +142,10 @@ pub fn run_case(ctx: &Ctx, c: &C15Case, n: u64) -> Verdict {
     let cd = CaseDir::new("c15", n, if c.ext4 { Fs::Ext4 } else { Fs::Tmpfs });
     let tree = cd.tree();
     let built = c.tree.build(&tree);
-    let roots = root_args(c.roots);
+    let mut roots = root_args(c.roots);
+    if c.repeat_root {
+        roots.push(roots[0].clone());
+    }
     let root_paths: BTreeSet<PathBuf> = root_paths(&tree, c.roots).into_iter().collect();
     // clean recording run
     let (clean, log) = shim_run(&cd, c, &roots, &[]);
@@ -180,6 +192,29 @@ pub fn run_case(ctx: &Ctx, c: &C15Case, n: u64) -> Verdict {
                     let b = &singles[pick(w[1], singles.len())];
                     if a.path != b.path {
                         plan.push(vec![a.clone(), b.clone()]);
+                    }
+                }
+            }
+            // the same read fails in both files of an equal-length pair (both then lack the same part)
+            let mut by_len: BTreeMap<u64, Vec<Vec<u8>>> = BTreeMap::new();
+            for ((func, path), _) in &occ {
+                if func == "read" {
+                    if let Ok(m) = std::fs::metadata(bytes_path(path)) {
+                        by_len.entry(m.len()).or_default().push(path.clone());
+                    }
+                }
+            }
+            for paths in by_len.values() {
+                for i in 0..paths.len() {
+                    for j in i + 1..paths.len().min(i + 3) {
+                        let ka = occ.get(&("read".to_string(), paths[i].clone())).copied().unwrap_or(0).min(6);
+                        let kb = occ.get(&("read".to_string(), paths[j].clone())).copied().unwrap_or(0).min(6);
+                        for k in 1..=ka.min(kb) {
+                            plan.push(vec![
+                                Inject { func: "read".into(), path: B(paths[i].clone()), n: k, errno: "EIO".into() },
+                                Inject { func: "read".into(), path: B(paths[j].clone()), n: k, errno: "EIO".into() },
+                            ]);
+                        }
                     }
                 }
             }
@@ -374,7 +409,9 @@ pub fn run_case(ctx: &Ctx, c: &C15Case, n: u64) -> Verdict {
             let others: Vec<std::ffi::OsString> = roots.iter().enumerate().filter(|(i, _)| *i != ri).map(|(_, r)| r.clone()).collect();
             let _ = ri;
             let mut expected: Option<Vec<(u64, Vec<Vec<u8>>)>> = None;
-            for k in 2..=cnt.min(4) {
+            // one up-front check per occurrence of the root among the arguments
+            let mult = roots.iter().filter(|r| tree.join(r) == *rp).count() as u32;
+            for k in (mult + 1)..=cnt.min(mult + 3) {
                 for e in ["ENOENT", "EACCES", "EIO"] {
                     let inj = vec![Inject { func: "stat".into(), path: B(rb.clone()), n: k, errno: e.into() }];
                     let (run, flog) = shim_run(&cd, c, &roots, &inj);
@@ -421,7 +458,7 @@ pub fn check(tier: Tier) -> i32 {
     cleanup_process_scratch();
     ctx.finish(
         "fault_enumeration",
-        "proptest-generated scenario trees (4-9 files up to 140 KB, nested directories, hard links, near-duplicates; tmpfs and ext4) x group options (cache, transform, pinned device kind, hash fn, stage knobs). The read-side libc calls (stat, lstat, open, n-th read, opendir, n-th readdir, readlink, FIEMAP ioctl) of a clean run are recorded per tree entry with the LD_PRELOAD interposer; then for EVERY entry strictly below the roots, EVERY recorded call occurrence (capped at 6-8 per function and path) and every applicable errno (EACCES, EIO, ENOENT) one run is made with that single call failing, plus sampled pairs on two different entries. Metamorphic oracle: the report must equal a clean run on the tree with the affected entry physically removed (the file; the sub-tree for directory faults; the children not yet returned for a readdir fault; nothing for FIEMAP) - or, for faults on metadata calls that fclones may tolerate, the clean report of the full tree; exit status 0; a warning unless the errno is ENOENT; a file whose open/read failed is in no group. evaluations = faulted runs; non-trivial = the faulted entry is (or contains) a member of a group of the clean report and the fault hits open/read.",
+        "proptest-generated scenario trees (4-9 files up to 140 KB, nested directories, hard links, near-duplicates; tmpfs and ext4; in a quarter of the scenarios the first root is given twice) x group options (cache, transform, pinned device kind, hash fn, stage knobs). The read-side libc calls (stat, lstat, open, n-th read, opendir, n-th readdir, readlink, FIEMAP ioctl) of a clean run are recorded per tree entry with the LD_PRELOAD interposer; then for EVERY entry strictly below the roots, EVERY recorded call occurrence (capped at 6-8 per function and path) and every applicable errno (EACCES, EIO, ENOENT) one run is made with that single call failing, plus sampled pairs on two different entries and, for every two files of equal length, the same n-th read failing in both; a quarter of the scenarios run with --skip-content-hash (pinned SSD, suffix stage above 64 KiB). Metamorphic oracle: the report must equal a clean run on the tree with the affected entry physically removed (the file; the sub-tree for directory faults; the children not yet returned for a readdir fault; nothing for FIEMAP) - or, for faults on metadata calls that fclones may tolerate, the clean report of the full tree; exit status 0; a warning unless the errno is ENOENT; a file whose open/read failed is in no group. evaluations = faulted runs; non-trivial = the faulted entry is (or contains) a member of a group of the clean report and the fault hits open/read.",
         &["faults are injected at libc level by path and occurrence number, independent of the schedule", "the harness runs as root, so permission bits cannot make files unreadable"],
     )
 }
